@@ -182,54 +182,50 @@ Example C07_example :
   (rs_head (c_store c'), ss_err (c_state c'), c_trig c', c_loop c', ranges_all (c_pend c'), length (c_reqs c')) = (40, None, false, LIdle, [], 4%nat).
 Proof. vm_compute. split; reflexivity. Qed.
 
-(** *** the atomicity of learner calls in C07_reaches_target_partial cannot be dropped (as of /repo dd38a4c)
+(** *** schedules that defeated the interleaved form before /repo 7d16f07
 
-    Honest schedules with INTERLEAVED learner calls that end quiescent but not
-    [reached].  Both rest on syncStore.Append's pass-through: a list whose first
-    height is below the shim's head is written to the Store unchecked and the
-    shim's head pointer is not moved - also when the list ends ABOVE that head.
-    Head() calls that captured their subjective head before the heads were
-    gossiped, and use their (adjacent) answers afterwards, move the shim head
-    into the middle of what the loop is about to append.
-    Replayed on the real code by harness/c03/straddle_test.go
-    (TestStraddleWitness, TestStraddleAnswerWitness): same final states. *)
+    Until 7d16f07 syncStore.Append passed a list whose first height is below
+    the shim's head through unchecked and left the shim's head where it was,
+    also when the list ended ABOVE that head.  Head() calls that captured
+    their subjective head before newer heads were gossiped, and set their
+    (adjacent) answers afterwards, move the shim head into the middle of what
+    the loop is about to append: honest schedules then ended quiescent with the
+    shim head (State().Height, Syncer.Head()) one below the Store head and the
+    sync never Finished, or with a spurious errNonAdjacent and the target left
+    pending without trigger (finding F23; harness/c03/straddle_test.go replays
+    both on the real code).  Since 7d16f07 the walk applies to the part of the
+    list at or above the head; the same schedules now end [reached]. *)
 Definition cx_load (i : nat) (n : N) : list event := EHead (Some (wch n)) :: repeat (ET i) 2.     (* Head(): subjective head captured, answer n in flight *)
 Definition cx_gossip (i : nat) (n : N) : list event := EGossip (wch n) 100%Z (Bif [] false) :: repeat (ET i) 6.   (* a complete verifier call *)
 Definition cx_view (c : cfg) :=
   (rs_head (c_store c), h_height (c_cache c), h_height (local_head c), c_trig c, ranges_all (c_pend c), c_loop c,
    forallb (fun t => match t with TDone _ => true | _ => false end) (c_thr c), ss_err (c_state c), ss_to (c_state c), state_finished c).
 
-(** a pending range straddling the shim head: every learned head is stored
-    (Store head 22 = newest verified head), nothing pending, no trigger, no
-    error - but the shim head, State().Height and Syncer.Head() are 21
-    (Syncer.Head() was 22 before the last sync) and the sync to 22 never
-    reports Finished *)
-Example C07_interleaved_counterexample :
+(** a pending range straddling the shim head *)
+Example C07_straddling_range_example :
   let tvf := fun _ _ : hdr => TVOk in
   let c0 := init_cfg 15 (crun wch 15 3) in
   let es1 := cx_load 0 18 ++ cx_load 1 19 ++ cx_load 2 20 ++ cx_load 3 21          (* four Head() calls ask with subjective head 17 *)
              ++ cx_gossip 4 19 ++ repeat (EL GErr) 6                               (* gossip 19; the loop requests (17,19) *)
              ++ cx_gossip 5 20 ++ cx_gossip 6 21 ++ cx_gossip 7 22 in             (* pending [19 20 21 22] *)
   let es2 := repeat (ET 0) 5 ++ repeat (ET 1) 5 ++ repeat (ET 2) 5 ++ repeat (ET 3) 5   (* the answers 18..21 are set: shim head 21 *)
-             ++ [EL (GList [wch 18])] ++ repeat (EL GErr) 21 in                   (* the request is served in full; the loop runs until idle *)
+             ++ [EL (GList [wch 18])] ++ repeat (EL GErr) 30 in                   (* the request is served in full; the loop runs until idle *)
   let c1 := run 10%Z tvf c0 es1 in
   let c := run 10%Z tvf c0 (es1 ++ es2) in
   h_height (local_head c1) = 22 /\
-  cx_view c = (22, 21, 21, false, [], LIdle, true, None, 22, false).
+  cx_view c = (22, 22, 22, false, [], LIdle, true, None, 22, true).
 Proof. vm_compute. split; reflexivity. Qed.
 
-(** a range answer straddling the shim head: the getter never fails and serves
-    exactly what was asked, yet the sync ends with errNonAdjacent and the head
-    21 stays pending with no trigger left *)
-Example C07_interleaved_counterexample_answer :
+(** a range answer straddling the shim head *)
+Example C07_straddling_answer_example :
   let tvf := fun _ _ : hdr => TVOk in
   let c0 := init_cfg 15 (crun wch 15 3) in
   let es := cx_load 0 18 ++ cx_load 1 19 ++ cx_gossip 2 21 ++ repeat (EL GErr) 6    (* pending [21]; the loop requests (17,21) *)
             ++ repeat (ET 0) 5 ++ repeat (ET 1) 5                                   (* the answers 18, 19 are set: shim head 19 *)
-            ++ [EL (GList [wch 18; wch 19; wch 20])] ++ repeat (EL GErr) 4 in
+            ++ [EL (GList [wch 18; wch 19; wch 20])] ++ repeat (EL GErr) 30 in
   let c := run 10%Z tvf c0 es in
-  cx_view c = (20, 19, 21, false, [wch 21], LIdle, true, Some SENonAdj, 21, false).
-Proof. vm_compute. reflexivity. Qed.
+  cx_view c = (21, 21, 21, false, [], LIdle, true, None, 21, true).
+Proof. vm_compute. split; reflexivity. Qed.
 
 Print Assumptions C07_reaches_target_partial.
 Print Assumptions C07_gapped_pending.
